@@ -165,10 +165,24 @@ def _pure_test(e):
     return False
 
 
-def predicates(fnode):
+def _names_only_test(e):
+    if isinstance(e, (ast.Name, ast.Constant)):
+        return True
+    if isinstance(e, ast.Compare):
+        return _names_only_test(e.left) and all(_names_only_test(c) for c in e.comparators)
+    if isinstance(e, ast.BoolOp):
+        return all(_names_only_test(v) for v in e.values)
+    if isinstance(e, ast.UnaryOp) and isinstance(e.op, ast.Not):
+        return _names_only_test(e.operand)
+    return False
+
+
+def predicates(fnode, stable=None):
     """{local: expression} for locals that merely name a test:
     (1) `v = isinstance(x, T)` with x a parameter that is never re-bound or a local bound once (the answer cannot change);
     (2) `v = <side-effect free test>` whose only read is the test of the `if` statement that immediately follows the binding.
+    (3) `v = <comparison / boolean combination of local names and constants>` when *stable(assign, v, names)* says that none of the names can be
+        re-bound between the binding of v and a use of v (decided on the CFG by the caller).
     Reading `if v:` as `if <expression>:` is then exact."""
     counts = _stores(fnode)
     params = {x.arg for x in fnode.args.posonlyargs + fnode.args.args + fnode.args.kwonlyargs}
@@ -201,15 +215,29 @@ def predicates(fnode):
                 if isinstance(nxt, ast.If) and len(rd) == 1 and any(x is rd[0] for x in ast.walk(nxt.test)):
                     out[v] = val
                     bind[v] = id(w.targets[0])
+                    continue
+                if stable is not None and _names_only_test(val) and not isinstance(val, (ast.Name, ast.Constant)):
+                    names = {x.id for x in ast.walk(val) if isinstance(x, ast.Name)}
+                    if v not in names and stable(w, v, names):
+                        out[v] = val
+                        bind[v] = id(w.targets[0])
     return out, bind
 
 
-def apply_predicates(fnode):
-    m, _ = predicates(fnode)
+def apply_predicates(fnode, stable=None):
+    m, _ = predicates(fnode, stable)
     if not m:
         return None
     new = clone(fnode)
-    m2, bind = predicates(new)
+    m2, bind = predicates(new, None)
+    # case (3) was decided on the original: carry the decision over by position
+    if stable is not None:
+        orig = [w for w in walk_no_defs(fnode) if isinstance(w, ast.Assign)]
+        cp = [w for w in walk_no_defs(new) if isinstance(w, ast.Assign)]
+        for a_, b_ in zip(orig, cp):
+            if len(a_.targets) == 1 and isinstance(a_.targets[0], ast.Name) and a_.targets[0].id in m and a_.targets[0].id not in m2 and m[a_.targets[0].id] is a_.value:
+                m2[b_.targets[0].id] = b_.value
+                bind[b_.targets[0].id] = id(b_.targets[0])
     tr = _Subst(m2, set(bind.values()))
     new.body = [tr.visit(s) for s in new.body]
     ast.fix_missing_locations(new)
